@@ -59,6 +59,9 @@ func (g *gen) Add(name string, typs []types.Type) (string, error) {
 	if params.Len() < 2 {
 		return "", fmt.Errorf("%s, the first argument is a function, but wanted a function with more than one argument", name)
 	}
+	if sig.Variadic() {
+		return "", fmt.Errorf("%s, the first argument is a variadic function, %s, its parameters cannot be flipped", name, g.TypeString(typs[0]))
+	}
 	return g.SetFuncName(name, derive.RenameBlankIdentifier(sig))
 }
 
